@@ -568,7 +568,7 @@ const TOP_NAMES: [(usize, &[&str]); 8] = [
     (S_WATERFMT, &["two_layers"]),
 ];
 const TOP_CHUNKS: [(usize, &[&str]); 9] = [
-    (S_MCNK, &["one", "auto256"]),
+    (S_MCNK, &["one"]),
     (S_TEX, &["one", "three_shared_prefix"]),
     (S_MFBO, &["off", "on"]),
     (S_MTXF, &["none", "per_texture", "one_fewer", "two_more"]),
@@ -578,11 +578,29 @@ const TOP_CHUNKS: [(usize, &[&str]); 9] = [
     (S_WATER, &["none", "c0", "c255", "c0_17_255", "present_empty", "all256", "c0_17attrs_255", "vec1_c0"]),
     (S_WATERFMT, &["plain_attrs", "lvf0_bitmap", "lvf1_full", "lvf2_bitmap_attrs", "lvf3", "two_layers", "bitmap_no_vertices_attrs", "two_layers_last_bitmap_only", "three_layers", "lvf0_full_bitmap64"]),
 ];
+/// the same with the 256 serialiser-generated terrain chunks (their content depends on the version), one water format
+const TOP_CHUNKS_AUTO: [(usize, &[&str]); 9] = [
+    (S_MCNK, &["auto256"]),
+    (S_TEX, &["one", "three_shared_prefix"]),
+    (S_MFBO, &["off", "on"]),
+    (S_MTXF, &["none", "per_texture", "one_fewer", "two_more"]),
+    (S_MAMP, &["off", "on"]),
+    (S_MTXP, &["off", "per_texture", "two_more"]),
+    (S_BLEND, &["off", "two_batches", "one_batch", "big"]),
+    (S_WATER, &["none", "c0", "c255", "c0_17_255", "present_empty", "all256", "c0_17attrs_255", "vec1_c0"]),
+    (S_WATERFMT, &["two_layers"]),
+];
 impl TopProduct {
-    fn new(name: &'static str, axes: &[(usize, &[&str])]) -> TopProduct {
-        let radices: Vec<u64> = axes.iter().map(|(_, v)| v.len() as u64).collect();
+    fn new(name: &'static str, products: &[&[(usize, &[&str])]]) -> TopProduct {
         let mut cases = vec![];
         let mut seen: HashSet<Spec> = HashSet::new();
+        for axes in products {
+            Self::add(&mut cases, &mut seen, axes);
+        }
+        TopProduct { cases, name }
+    }
+    fn add(cases: &mut Vec<Spec>, seen: &mut HashSet<Spec>, axes: &[(usize, &[&str])]) {
+        let radices: Vec<u64> = axes.iter().map(|(_, v)| v.len() as u64).collect();
         for version in 0..VERSIONS.len() {
             for i in 0..gen::product(&radices) {
                 let mut s = Spec::minimal(version);
@@ -598,7 +616,6 @@ impl TopProduct {
                 }
             }
         }
-        TopProduct { cases, name }
     }
 }
 impl Space for TopProduct {
@@ -667,6 +684,32 @@ impl Convert {
                         }
                         if seen.insert(canon.clone()) {
                             cases.push(Case { base: bname, devs, spec: canon });
+                        }
+                    }
+                }
+            }
+        }
+        // two deviations among the top-level sites (the ones a conversion acts on) from the full baseline
+        for version in 0..VERSIONS.len() {
+            let base = Spec::full(version);
+            let top: Vec<usize> = (0..NSITES).filter(|i| !SITES[*i].per_chunk).collect();
+            for (x, &s1) in top.iter().enumerate() {
+                for &s2 in &top[x + 1..] {
+                    for v1 in 0..SITES[s1].vals.len() as u8 {
+                        for v2 in 0..SITES[s2].vals.len() as u8 {
+                            if v1 == base.v[s1] || v2 == base.v[s2] {
+                                continue;
+                            }
+                            let mut s = base.clone();
+                            s.v[s1] = v1;
+                            s.v[s2] = v2;
+                            let canon = s.canonical();
+                            if documented_refusal(&canon) || (canon.v[S_MTXF] != 0 && version < SITES[S_MTXF].full_from) {
+                                continue;
+                            }
+                            if seen.insert(canon.clone()) {
+                                cases.push(Case { base: "full", devs: vec![(s1, v1), (s2, v2)], spec: canon });
+                            }
                         }
                     }
                 }
@@ -838,8 +881,8 @@ fn build_space(name: &str, _arg: &str, tier: Tier) -> Box<dyn Space> {
         "main" => Box::new(Main::new(tier)),
         "ext" => Box::new(Ext::new()),
         "chunks" => Box::new(Chunks::new()),
-        "top_names" => Box::new(TopProduct::new("top_names_product", &TOP_NAMES)),
-        "top_chunks" => Box::new(TopProduct::new("top_chunks_product", &TOP_CHUNKS)),
+        "top_names" => Box::new(TopProduct::new("top_names_product", &[&TOP_NAMES])),
+        "top_chunks" => Box::new(TopProduct::new("top_chunks_product", &[&TOP_CHUNKS, &TOP_CHUNKS_AUTO])),
         "convert" => Box::new(Convert::new()),
         _ => panic!("space {name}"),
     }
@@ -879,6 +922,31 @@ fn repro(name: &str) {
                     w0.sub_data.get("MCCV"),
                     w1.sub_data.get("MCCV"),
                     flag
+                );
+            }
+        }
+        "holes" => {
+            // D9: a terrain chunk with the high-res-holes flag: the 8-byte hole bitmap given to the builder is
+            // overwritten with the MCVT/MCNR offsets by the serialiser
+            for with_heights in [false, true] {
+                let mut s = Spec::minimal(5);
+                s.v[S_CFLAGS] = vidx(S_CFLAGS, "high_res_holes");
+                if with_heights {
+                    s.v[S_HEIGHTS] = 1;
+                    s.v[S_NORMALS] = 1;
+                }
+                let inp = make_input(&s);
+                let given = inp.mcnk.as_ref().unwrap()[0].header.holes_high_res();
+                let b0 = build(&inp).unwrap().to_bytes().unwrap();
+                let r0 = p(&b0);
+                let h = &r0.mcnk_chunks[0].header;
+                println!(
+                    "MoP tile, one MCNK with flags {:#x} (high_res_holes), MCVT+MCNR {}: holes_high_res() given {:x?}, parsed back {:x?}; parsed flags {:#x}",
+                    h.flags.value,
+                    if with_heights { "present" } else { "absent" },
+                    given,
+                    h.holes_high_res(),
+                    h.flags.value
                 );
             }
         }
@@ -981,7 +1049,7 @@ fn main() {
         "builder inputs = all specs with <= {dmin} deviations from the minimal baseline and <= {dfull} from the version-adjusted full baseline over {} sites ({} site values in total) x 6 target versions (VanillaEarly..MoP), canonicalised (sites without effect reset) and de-duplicated{}; per case: build -> to_bytes -> independent walker -> parse_adt -> content comparison with the input, then {ROUNDS} rounds of parse -> rebuild -> to_bytes on two rebuild paths (BuiltAdt::from_root_adt(root, None) and AdtBuilder::from_parsed(root).build()), every produced file walked. A case is non-trivial when the builder accepted it and a file was produced; distinct by (version, site vector).",
         NSITES,
         SITES.iter().map(|s| s.vals.len()).sum::<usize>(),
-        if tier == Tier::Quick { "; 256 populated MCNK within <= 2 deviations of the minimal and <= 1 of the full baseline".to_string() } else { format!("; thorough adds a third baseline (full with staggered sub-chunk presence: sub-chunk k present on chunk i iff (i+k) even) with the same deviation bound as full, 256 populated MCNK there only within <= 2 deviations; with 3 deviations, inputs that the builder documents as refused are not enumerated again. The sites of space main use their core values ({} values). Thorough-only spaces over the extended alphabet ({} values: name lists of 300 names / > 65535 bytes, multi-byte UTF-8 names, 1821 doodad and 1025 WMO placements (> 65535 bytes), 3/17/255/257 terrain chunks, 2 and 3 layers, 3-byte alpha maps, 40 sound emitters, WMO-only and 150 references, ocean/slime/flat legacy liquid, all 8 subsets of MCMT/MCDD/MCBB, chunk flags impassable+do-not-fix-alpha and high-res holes with a hole bitmap, water on all 256 chunks / attributes-only entry / 1-entry list, 3-layer and 64-bit-bitmap water, MTXF/MTXP counts differing from the texture count, 1-batch and > 65535-byte blend meshes): ext = all specs with <= 2 deviations from the three baselines with at least one extended value; chunks = full product of {} per-chunk sites ({} combinations, 256 consecutive combinations on the 256 terrain chunks of one tile, {} tiles) x 6 versions, top level at the full baseline, 2 rounds; top_names = full product textures x models x doodads x wmos x wmo_placements x flight_bounds x water(none, chunk 0) x 6 versions; top_chunks = full product mcnk(one, auto256) x textures(1, 3) x flight_bounds x mtxf(4) x mamp x mtxp(3) x blend_mesh(4) x water set(8) x water format(10) x 6 versions, both without the combinations documented as refused, 3 rounds on three rebuild paths (the third alternates from_root_adt and from_parsed); convert = the three baselines with <= 1 deviation over the whole alphabet x 6 versions: BuiltAdt::from_root_adt(root, Some(v)) for all 6 v and back to the built version (every file walked; content compared for the sections that exist in the oldest version of the chain; all-zero MFBO / MTXF added by a conversion not judged), then AdtBuilder::from_parsed(root) + add_texture/add_model/add_wmo/add_mcnk_chunk -> build -> to_bytes -> walk -> parse == parsed content plus the additions", SITES.iter().map(|s| s.core).sum::<usize>(), SITES.iter().map(|s| s.vals.len()).sum::<usize>(), CHUNK_PRODUCT.len(), chunk_product_len(), chunk_product_len().div_ceil(256)) }
+        if tier == Tier::Quick { "; 256 populated MCNK within <= 2 deviations of the minimal and <= 1 of the full baseline".to_string() } else { format!("; thorough adds a third baseline (full with staggered sub-chunk presence: sub-chunk k present on chunk i iff (i+k) even) with the same deviation bound as full, 256 populated MCNK there only within <= 2 deviations; with 3 deviations, inputs that the builder documents as refused are not enumerated again. The sites of space main use their core values ({} values). Thorough-only spaces over the extended alphabet ({} values: name lists of 300 names / > 65535 bytes, multi-byte UTF-8 names, 1821 doodad and 1025 WMO placements (> 65535 bytes), 3/17/255/257 terrain chunks, 2 and 3 layers, 3-byte alpha maps, 40 sound emitters, WMO-only and 150 references, ocean/slime/flat legacy liquid, all 8 subsets of MCMT/MCDD/MCBB, chunk flags impassable+do-not-fix-alpha and high-res holes with a hole bitmap, water on all 256 chunks / attributes-only entry / 1-entry list, 3-layer and 64-bit-bitmap water, MTXF/MTXP counts differing from the texture count, 1-batch and > 65535-byte blend meshes): ext = all specs with <= 2 deviations from the three baselines with at least one extended value; chunks = full product of {} per-chunk sites ({} combinations, 256 consecutive combinations on the 256 terrain chunks of one tile, {} tiles) x 6 versions, top level at the full baseline, 2 rounds; top_names = full product textures x models x doodads x wmos x wmo_placements x flight_bounds x water(none, chunk 0) x 6 versions; top_chunks = full product textures(1, 3) x flight_bounds x mtxf(4) x mamp x mtxp(3) x blend_mesh(4) x water set(8) x water format(10) x 6 versions with one terrain chunk, and the same product with one water format and the 256 terrain chunks the serialiser generates, all without the combinations documented as refused, 3 rounds on three rebuild paths (the third alternates from_root_adt and from_parsed); convert = the three baselines with <= 1 deviation over the whole alphabet, and the full baseline with 2 deviations among the top-level sites, x 6 versions: BuiltAdt::from_root_adt(root, Some(v)) for all 6 v and back to the built version (every file walked; content compared for the sections that exist in the oldest version of the chain; all-zero MFBO / MTXF added by a conversion not judged), then AdtBuilder::from_parsed(root) + add_texture/add_model/add_wmo/add_mcnk_chunk -> build -> to_bytes -> walk -> parse == parsed content plus the additions", SITES.iter().map(|s| s.core).sum::<usize>(), SITES.iter().map(|s| s.vals.len()).sum::<usize>(), CHUNK_PRODUCT.len(), chunk_product_len(), chunk_product_len().div_ceil(256)) }
     );
     c.assume("content equality is judged on a canonical byte rendering of every section (floats by bit pattern); derived fields are excluded: MCNK header offsets/sizes/n_layers/n_snd_emitters, MCNR trailing padding, MH2O header/instance offsets and layer_count, MHDR/MCIN/MMID/MWID (checked by the walker instead); an empty section equals an absent one");
     c.assume("detected version is not content: version detection from chunk presence may legitimately report an older version when no newer chunk is present (counted, not judged); content lost because of it is judged");
@@ -1025,8 +1093,8 @@ fn main() {
                 "ext": {"max_deviations": 2, "baselines": 3, "versions": 6},
                 "chunks": {"product_axes": prod(&CHUNK_PRODUCT), "combinations": chunk_product_len(), "tiles_per_version": chunk_product_len().div_ceil(256), "versions": 6, "rounds": 2, "rebuild_paths": 2},
                 "top_names": {"product_axes": prod(&TOP_NAMES), "versions": 6, "rounds": ROUNDS, "rebuild_paths": 3},
-                "top_chunks": {"product_axes": prod(&TOP_CHUNKS), "versions": 6, "rounds": ROUNDS, "rebuild_paths": 3},
-                "convert": {"baselines": 3, "max_deviations": 1, "versions": 6, "target_versions": 6, "chain": "A->B, A->B->A, load-modify-save"},
+                "top_chunks": {"product_axes": prod(&TOP_CHUNKS), "product_axes_auto256": prod(&TOP_CHUNKS_AUTO), "versions": 6, "rounds": ROUNDS, "rebuild_paths": 3},
+                "convert": {"baselines": 3, "max_deviations": 1, "max_top_level_deviations_from_full": 2, "versions": 6, "target_versions": 6, "chain": "A->B, A->B->A, load-modify-save"},
             }),
         );
     }
